@@ -1,7 +1,7 @@
 use arc_swap::{ArcSwap, ArcSwapOption};
 use paste::paste;
 use std::sync::{
-    atomic::{AtomicUsize, Ordering as AtomicOrdering},
+    atomic::{AtomicBool, AtomicUsize, Ordering as AtomicOrdering},
     Arc,
 };
 
@@ -135,6 +135,7 @@ macro_rules! combine_impls {
                             let n_start = Arc::new(AtomicUsize::new(N));
                             let n_data = Arc::new(AtomicUsize::new(N));
                             let n_end = Arc::new(AtomicUsize::new(N));
+                            let ended = Arc::new(AtomicBool::new(false));
                             let vals: Arc<ArcSwap<($(Option<$T>,)+)>> =
                                 Arc::new(Default::default());
                             let source_talkbacks: Arc<($(ArcSwapOption<Source<$T>>,)+)> =
@@ -144,12 +145,16 @@ macro_rules! combine_impls {
                                     #[cfg(feature = "tracing")]
                                     let combine_span = combine_span.clone();
                                     let source_talkbacks = Arc::clone(&source_talkbacks);
+                                    let ended = Arc::clone(&ended);
                                     move |message| {
                                         instrument!(
                                             parent: &combine_span,
                                             "sink_talkback"
                                         );
                                         trace!("from sink: {message:?}");
+                                        if let Message::Error(_) | Message::Terminate = message {
+                                            ended.store(true, AtomicOrdering::Release);
+                                        }
                                         match message {
                                             Message::Handshake(_) => {
                                                 panic!("sink handshake has already occurred");
@@ -159,6 +164,11 @@ macro_rules! combine_impls {
                                             }
                                             Message::Pull => {
                                                 $(
+                                                    // the sink may have disposed from inside a handler
+                                                    // run by an earlier Pull of this very broadcast
+                                                    if ended.load(AtomicOrdering::Acquire) {
+                                                        return;
+                                                    }
                                                     // a member that has ended by itself is not talked to any more
                                                     if let Some(source_talkback) =
                                                         &*source_talkbacks.$idx.load()
